@@ -21,7 +21,9 @@ def run(rep):
                          "continued with loose commits, with a new pack, after a repack, and after branches were deleted and gc pruned; "
                          "with files copied from another repository the answers must equal those without; where the commit-graph knows "
                          "a commit its parents must be the commit's own (the theorem's hypothesis); merge bases with a commit-graph in "
-                         "place vs the model run on the parents read from that file.  distinct non-trivial = (repository, variant, staleness)")
+                         "place vs the model run on the parents read from that file; the file as a codec: parent lists (0-8 parents, octopus "
+                         "merges sharing one extra edge list, parents absent from the file) written by dulwich, slots and edges found by an "
+                         "independent chunk parser vs encode_graph, dulwich's reader vs decode_graph, and the same for files C git wrote.  distinct non-trivial = (repository, variant, staleness)")
     rep.trusted += ["C git 2.39.5 commit-graph / multi-pack-index / repack -b as second writer"]
     impl = Impl(PROP, case_timeout=1200)
     model = Model(PROP)
@@ -59,6 +61,7 @@ def run(rep):
         rep.case("mismatched", key=(q["seed"], "mismatch"), nontrivial=True)
         if r.get("mismatch_diff"):
             rep.fail("foreign-accelerator-trusted", "with commit-graph and multi-pack-index copied from another repository the answers to %s differ" % r["mismatch_diff"], base)
+    codec(rep, impl, model, rng, thorough)
     # merge bases through the commit-graph vs the model on the parents read from the file
     reqs = [{"fn": "graph_lcas", "seed": rng.randrange(1 << 30), "n": rng.choice([5, 9, 16]), "writer": rng.choice(["dulwich", "git"])} for _ in range(12 if not thorough else 150)]
     lines, plan = [], []
@@ -73,6 +76,59 @@ def run(rep):
         rep.case("merge-base-through-commit-graph", key=(q["seed"], ab), nontrivial=True)
         if m != g:
             rep.disagree("find_merge_base with a commit-graph vs Lca.find_lcas on the file's parents", {"seed": q["seed"], "query": ab, "writer": q["writer"]}, m, g)
+
+
+def codec(rep, impl, model, rng, thorough):
+    """the commit-graph file as a codec of parent lists: dulwich's writer vs CommitGraph.encode_graph (slots and extra edge
+    list, as found in the bytes by an independent parser), dulwich's reader vs decode_graph; files written by C git"""
+    def gen(n, absent):
+        cs = []
+        for i in range(n):
+            k = 0 if i == 0 else rng.choice([0, 1, 1, 1, 2, 2, 3, 4, 5, 8])
+            ps = rng.sample(range(i), min(i, k))
+            if absent and ps and rng.random() < 0.3:
+                ps[rng.randrange(len(ps))] = "x"
+            cs.append(ps)
+        return cs
+    def spec(cs):
+        return ";".join(".".join(map(str, ps)) or "_" for ps in cs)
+    reqs = [{"fn": "cg_codec", "commits": gen(rng.choice([1, 2, 5, 9, 20]), False)} for _ in range(40 if not thorough else 600)]
+    reqs += [{"fn": "cg_codec", "commits": gen(rng.choice([2, 5, 9]), True), "absent": True} for _ in range(10 if not thorough else 100)]
+    lines = ["cgenc " + spec(q["commits"]) for q in reqs]
+    wide = 0
+    for q, r, m in zip(reqs, impl.run(reqs), model.run(lines)):
+        case = {"commits": q["commits"], "codec": True}
+        wide += sum(1 for ps in q["commits"] if len(ps) > 2)
+        rep.case("commit-graph-codec" + (":absent-parents" if q.get("absent") else ""), key=spec(q["commits"]), nontrivial=any(len(ps) > 1 for ps in q["commits"]), sample=case)
+        if "rows" not in r:
+            rep.fail("commit-graph-writer-failed", "writing the commit-graph failed: %r" % (r,), case)
+            continue
+        mrows, medges, mread = [x.strip() for x in m.split("|")]
+        if (r["rows"], r["edges"]) != (mrows, medges):
+            rep.disagree("CommitGraph.write_to_file vs CommitGraph.encode_graph", case, "%s | %s" % (mrows, medges), "%s | %s" % (r["rows"], r["edges"]))
+        if r["read"] != mread:
+            rep.disagree("commit-graph reader vs CommitGraph.decode_graph", case, mread, r["read"])
+        if not q.get("absent"):
+            want = spec(q["commits"])
+            if r["read"] != want:
+                rep.fail("commit-graph-parents-wrong", "parents written %s, read back %s" % (want, r["read"]), case)
+    rep.extra["octopus_commits_in_codec_cases"] = wide
+    reqs = [{"fn": "cg_git", "commits": gen(rng.choice([3, 6, 12]), False), "seed": rng.randrange(1 << 20)} for _ in range(8 if not thorough else 80)]
+    res = impl.run(reqs)
+    lines, plan = [], []
+    for q, r in zip(reqs, res):
+        case = {"commits": q["commits"], "writer": "git"}
+        rep.case("commit-graph-codec:git", key=spec(q["commits"]) + str(q["seed"]), nontrivial=True, sample=case)
+        if "rows" not in r:
+            rep.note("git commit-graph write failed: %s" % str(r)[:100])
+            continue
+        if r["read"] != r["truth"]:
+            rep.fail("commit-graph-parents-wrong", "git-written commit-graph: dulwich reads parents %s, the commits have %s" % (r["read"], r["truth"]), case)
+        lines.append("cgdec %s %s" % (r["rows"], r["edges"]))
+        plan.append((case, r["read"]))
+    for (case, want), m in zip(plan, model.run(lines)):
+        if m != want:
+            rep.disagree("commit-graph reader vs CommitGraph.decode_graph (git-written file)", case, m, want)
 
 
 def replay(rep, body):
